@@ -38,7 +38,7 @@ Proof.
 Qed.
 
 (* assemblies never modify the geometry: HeadMat after any number of HeadMat / other assemblies = HeadMat right away *)
-Definition is_assembly (o : gop) : bool := match o with GLoad _ | GFinalize => false | _ => true end.
+Definition is_assembly (o : gop) : bool := match o with GHeadMat | GOther => true | _ => false end.
 Lemma g_run_assemblies : forall fixed W h s, forallb is_assembly h = true -> g_run fixed W h s = s.
 Proof.
   induction h as [|o h IH]; intros s H; simpl in *; auto.
@@ -63,6 +63,34 @@ Proof.
   destruct (d_finalized d) eqn:Hf; cbn [fst snd].
   - rewrite (K eq_refl). split; [reflexivity | intros _; reflexivity].
   - split; [reflexivity | discriminate].
+Qed.
+
+(* every derived quantity is recomputed from the current inputs: changing the conductivities in place and finalizing
+   again gives exactly the object obtained by loading the same geometry with those conductivities *)
+Lemma eqbZs_eq : forall a b, eqbZs a b = true -> a = b.
+Proof.
+  induction a as [|x a IH]; intros [|y b] H; simpl in H; try discriminate; auto.
+  apply andb_prop in H. destruct H as [H1 H2]. apply Z.eqb_eq in H1. subst. f_equal. apply IH, H2.
+Qed.
+
+Lemma finalize_is_a_function_of_inputs_lemma : forall W i j s0,
+  d_finalized (nth i W dummy_desc) = true -> d_finalized (nth j W dummy_desc) = true ->
+  same_geometry (nth i W dummy_desc) (nth j W dummy_desc) = true ->
+  g_step true W (GSetCond j) (fst (g_step true W (GLoad i) s0)) = (fst (g_step true W (GLoad j) s0), g_observe 0 (fst (g_step true W (GLoad j) s0))).
+Proof.
+  intros W i j s0 Hi Hj Hs. set (di := nth i W dummy_desc) in *. set (dj := nth j W dummy_desc) in *.
+  assert (E : g_loaded (g_load true i di s0) = Some i) by (unfold g_load; rewrite Hi; reflexivity).
+  cbn [g_step fst snd]. fold di dj. rewrite E. fold di dj. rewrite Hi, Hj, Hs. cbn [andb].
+  unfold same_geometry in Hs. apply andb_prop in Hs. destruct Hs as [Hs Hd]. apply andb_prop in Hs. destruct Hs as [Hv Hm].
+  apply eqbZs_eq in Hv. apply Nat.eqb_eq in Hm. apply Nat.eqb_eq in Hd.
+  assert (K : g_finalize dj (g_reset_derived
+               {| g_verts := g_verts (g_load true i di s0); g_nmeshes := g_nmeshes (g_load true i di s0); g_ndomains := g_ndomains (g_load true i di s0);
+                  g_nested := g_nested (g_load true i di s0); g_nparams := g_nparams (g_load true i di s0); g_cbt := g_cbt (g_load true i di s0);
+                  g_pairs := g_pairs (g_load true i di s0); g_parts := g_parts (g_load true i di s0); g_invalid := g_invalid (g_load true i di s0);
+                  g_loaded := Some j |}) = g_load true j dj s0).
+  { unfold g_load. rewrite Hi, Hj. unfold g_finalize, g_reset_derived, g_clear. cbn. rewrite Hv, Hm, Hd.
+    destruct (d_marks dj); destruct (d_marks di); destruct (d_ndomains dj); reflexivity. }
+  rewrite K. reflexivity.
 Qed.
 
 (* the tree as found.  Descriptor 0: a three-layer nested head (Head1: 126 vertices, 5 communicating pairs);
